@@ -143,9 +143,11 @@ def literal_items(e, cls):
     if isinstance(e, ast.Call) and isinstance(e.func, ast.Attribute) and e.func.attr == "items" and not e.args:
         d = e.func.value
         if isinstance(d, ast.Attribute):
+            name = d.attr
             for st in cls.body:
-                if isinstance(st, ast.Assign) and any(isinstance(t, ast.Name) and t.id == d.attr for t in st.targets):
+                if isinstance(st, ast.Assign) and any(isinstance(t, ast.Name) and t.id == name for t in st.targets):
                     d = st.value
+                    break
         if isinstance(d, ast.Dict):
             return [(ast.literal_eval(k), ast.literal_eval(v)) for k, v in zip(d.keys, d.values)]
     try:
@@ -434,7 +436,7 @@ def translate(repo: Path):
                        f"    attrsRead := [{', '.join(lstr(r) for r in reads)}],\n"
                        f"    attrsDef := [{', '.join(lstr(r) for r in defs)}],\n"
                        f"    inertHandlers := [{', '.join(lstr(r) for r in inert)}] }}")
-        except (Unrecognised, StopIteration, OSError, SyntaxError) as e:
+        except Exception as e:  # whatever the reader trips over is "not recognised", never a crash of the check
             ok = False
             notes.append(f"UNRECOGNISED: {cname}: {type(e).__name__}: {e}")
     lean = (
